@@ -517,7 +517,57 @@ def run_custom_vjp_inputs(ctx, i, rng):
               'custom_vjp:backward_rule_not_used', lambda: dict(case=desc, variant=variant))
 
 
+def run_jvp_forms(ctx, i, rng):
+  """nn.jvp call forms: primals / tangents given as lists ("either a tuple or a list") and a `variables=` filter that lifts
+  fewer collections than are differentiated; the result is jax.jvp of the pure apply function in every form."""
+  import jax
+  import jax.numpy as jnp
+  import flax.linen as nn
+  as_list = i % 2 == 1
+  # (the module reads 'batch_stats', so every filter lifts it; 'params' is lifted as the differentiated collection in any case)
+  vfilter = [True, 'batch_stats', ['batch_stats'], True, ('batch_stats',), ['batch_stats', 'params']][(i // 2) % 6]
+  two = (i // 12) % 2 == 1
+  desc = dict(primals_as_list=as_list, variables=repr(vfilter), two_primals=two)
+  with ctx.case('jvp_forms', i, desc, nontrivial=as_list or vfilter is not True):
+    class Inner(nn.Module):
+      @nn.compact
+      def __call__(self, x, z=None):
+        y = nn.BatchNorm(use_running_average=True)(nn.Dense(3)(x))
+        return y if z is None else y * jnp.tanh(z).sum()
+
+    class Top(nn.Module):
+      @nn.compact
+      def __call__(self, x, z, xt, zt, pt):
+        inner = Inner(name='inner')
+        if self.is_initializing():
+          return inner(x, z if two else None)
+        ps, ts = ((x, z), (xt, zt)) if two else ((x,), (xt,))
+        if as_list:
+          ps, ts = list(ps), list(ts)
+        return nn.jvp(lambda m, *a: m(*a), inner, ps, ts, {'params': pt}, variables=vfilter)
+
+    nr = np.random.default_rng(i)
+    x = jnp.asarray(nr.uniform(-1, 1, (4, 2)).astype(np.float32))
+    z = jnp.asarray(nr.uniform(-1, 1, (2,)).astype(np.float32))
+    xt, zt = jnp.ones_like(x) * 0.5, jnp.ones_like(z) * -0.25
+    V = Top().init(jax.random.key(i), x, z, xt, zt, None)
+    V = jax.tree_util.tree_map(lambda a: a + jnp.asarray(nr.uniform(0.1, 0.5, a.shape).astype(np.float32)), V)
+    pt = jax.tree_util.tree_map(lambda a: jnp.asarray(nr.normal(size=a.shape).astype(np.float32)), V['params']['inner'])
+    y, yt = Top().apply(V, x, z, xt, zt, pt)
+    ctx.op('nn.jvp(call forms)')
+    sub = {c: V[c]['inner'] for c in V}
+
+    def pure(p, *a):
+      return Inner().apply({**sub, 'params': p}, *a)
+    args, targs = ((x, z), (xt, zt)) if two else ((x,), (xt,))
+    y_r, yt_r = jax.jvp(pure, (sub['params'], *args), (pt, *targs))
+    ctx.check(close(y, y_r), 'jvp:primal:call_forms', lambda: dict(case=desc))
+    ctx.check(close(yt, yt_r), 'jvp:tangent:call_forms', lambda: dict(case=desc))
+
+
 def run(ctx):
+  for i in ctx.indices(24 if ctx.tier == 'quick' else 48, 'jvp_forms'):
+    run_jvp_forms(ctx, i, ctx.rng('jvp_forms', i))
   for i in ctx.indices(48 if ctx.tier == 'quick' else 480, 'noisy'):
     run_noisy(ctx, i, ctx.rng('noisy', i))
   for i in ctx.indices(24 if ctx.tier == 'quick' else 240, 'noisy_custom_vjp'):
